@@ -9,6 +9,7 @@ Generated/ParsDispatch.lean, regenerated from /repo on every run: every `decide`
 `check_key_mismatch` return silently, stops these theorems from elaborating.
 -/
 import StarsimModel.Lemmas.Pars
+import StarsimModel.Lemmas.ParsDeep
 
 namespace StarsimModel.C17
 open StarsimModel.Pars
@@ -377,5 +378,173 @@ example : convert .asis exReg .diseases 9 (.str "SIR") = convert .asis exReg .di
     convert .asis exReg .diseases 9 (.dict none []) = .error .value ∧
     convert .asis exReg .diseases 9 (.str "zzz") = .error .type ∧
     convert .asis exReg .diseases 9 (.dict (some (.name "sir")) [("foo", .number, 1)]) = .error .value := by decide +kernel
+
+/-! ## Round 2: merging, `ss.Time`, module containers with duplicates, nesting to any depth -/
+
+/-- **Keywords win** over the positional / `pars=` dict in `Module.update_pars(pars, **kwargs)` (regenerated merge order),
+    for every pair of dicts and every key; a key given only once keeps its value. -/
+theorem C17_kwargs_win (pars kw : List Item) (k : String) :
+    lookup k (mergeParsKw pars kw) = (match lookup k kw with | some w => some w | none => lookup k pars) := by
+  have ho : Gen.updateParsMergeOrder = ["pars", "kwargs"] := by decide
+  simp only [mergeParsKw, ho, List.foldl, lookup_mergeItems]
+  cases h1 : lookup k kw <;> cases h2 : lookup k pars <;> simp [lookup, h1, h2]
+
+/-- `Sim.__init__`: keyword arguments win over the named module arguments, which win over the `pars` dict. -/
+theorem C17_sim_merge_precedence (pars args kwargs : List Item) (k : String) :
+    lookup k (mergeSim pars args kwargs) =
+      (match lookup k kwargs with
+       | some w => some w
+       | none => (match lookup k args with | some w => some w | none => lookup k pars)) := by
+  have ho : Gen.simMergeOrder = ["pars", "args", "kwargs"] := by decide
+  simp only [mergeSim, ho, List.foldl, lookup_mergeItems]
+  cases h1 : lookup k kwargs <;> cases h2 : lookup k args <;> cases h3 : lookup k pars <;> simp [lookup, h1, h2, h3]
+
+/-! ### `ss.Time(**kwargs)`: module classes that never call `update_pars` -/
+
+/-- a keyword that `ss.Time.__init__` does not name is rejected (Python TypeError) … -/
+theorem C17_time_kw_unknown_rejected (var : Variant) (kw pars : List Item)
+    (h : ∃ it ∈ kw, it.1 ∉ Gen.timeInitNames) : timeCtor var kw pars = .error .type := by
+  obtain ⟨it, hit, hn⟩ := h
+  have hv : Gen.timeInitVarKw = false := by decide
+  have : kw.any (fun it => !Gen.timeInitNames.contains it.1) = true := by
+    simp only [List.any_eq_true]
+    exact ⟨it, hit, by simpa using hn⟩
+  unfold timeCtor
+  rw [hv, this]
+  rfl
+
+/-- … but (unchanged code, kernel-checked witness = the stored known finding `C17-pars-dict-to-time`) an entry of
+    the `pars=` dict that is not a time argument is accepted and is in effect nowhere … -/
+theorem C17_time_pars_counterexample :
+    timeCtor .asis [] [("prob", .number, 7)] = .ok [] ∧
+    timeCtor .asis [("start", .number, 3)] [("zz", .number, 7), ("dt", .number, 8)] = .ok [("start", 3), ("dt", 8)] := by
+  decide
+
+/-- … the repaired variant rejects it, whatever else is supplied … -/
+theorem C17_time_pars_spec_rejected (kw pars : List Item) (hk : ∀ it ∈ kw, it.1 ∈ Gen.timeInitNames)
+    (h : ∃ it ∈ pars, it.1 ∉ Gen.timeArgs) : timeCtor .spec kw pars = .error .value := by
+  obtain ⟨it, hit, hn⟩ := h
+  have h1 : kw.any (fun it => !Gen.timeInitNames.contains it.1) = false := by
+    simp only [List.any_eq_false]
+    intro x hx; simpa using hk x hx
+  have h2 : (pars.filter (fun it => !Gen.timeArgs.contains it.1)).isEmpty = false := by
+    rw [List.isEmpty_eq_false_iff_exists_mem]
+    exact ⟨it, by simp only [List.mem_filter]; exact ⟨hit, by simpa using hn⟩⟩
+  unfold timeCtor timeVerdict timeStray
+  rw [h1, h2]
+  simp
+
+/-- … and (`_partial`) in both variants a `pars=` dict of time arguments only is applied exactly as given. -/
+theorem C17_time_pars_applied_partial (var : Variant) (pars : List Item)
+    (hk : ∀ it ∈ pars, it.1 ∈ Gen.timeArgs) (hnn : ∀ it ∈ pars, it.2.1 ≠ .nil) (hnd : (keysOf pars).Nodup) :
+    ∃ res, timeCtor var [] pars = .ok res ∧ ∀ it ∈ pars, lookup it.1 res = some it.2.2 := by
+  have h2 : (pars.filter (fun it => !Gen.timeArgs.contains it.1)).isEmpty = true := by
+    rw [List.isEmpty_iff]
+    apply List.filter_eq_nil_iff.mpr
+    intro x hx; simpa using hk x hx
+  refine ⟨timeResult [] pars, ?_, ?_⟩
+  · unfold timeCtor timeVerdict timeStray
+    rw [h2]
+    simp
+  intro it hit
+  unfold timeResult
+  rw [lookup_filterMap_keys (fun k => timePick k [] pars) it.1 Gen.timeArgs (hk it hit)]
+  have hl : lookup it.1 pars = some it.2 := lookup_of_mem_nodup pars it.1 it.2 hnd (by cases it; exact hit)
+  have hb : Gen.timeCtorParsWin = true := by decide
+  have hne := hnn it hit
+  simp [timePick, hb, lookup, hl, hne, Option.orElse]
+
+/-- in the constructor the `pars=` dict overrides a keyword naming the same time argument (as-is: `Time.__init__` stores
+    the keyword first, `update(pars=…)` then prefers `par_val` to the current value) — the opposite of `update_pars`,
+    but deterministic: exactly one of the two supplied values is in effect. -/
+theorem C17_time_pars_override_ctor_keyword :
+    timeCtor .asis [("dt", .number, 1)] [("dt", .number, 2)] = .ok [("dt", 2)] := by decide
+
+/-- The choices the model of `convert_modules` hard-codes for a dict specification are the ones the source makes
+    (read statement by statement on every run): no `type` → ValueError, unknown name / class → TypeError, the name is
+    lower-cased, `type` is removed from the dict and the remaining entries are passed to the constructor. -/
+theorem C17_convert_dict_content :
+    Gen.convertDictNoType = .raise .value ∧ Gen.convertBadName = .raise .type ∧ Gen.convertBadClass = .raise .type ∧
+    Gen.convertLowercases = true ∧ Gen.convertPopsType = true ∧ Gen.convertPassesKwargs = true := by decide
+
+/-! ### module containers -/
+
+/-- **Duplicate names.** A list of modules becomes an `ss.ndict` exactly when the names are pairwise distinct; a
+    repeated name (two `'sir'`, the same instance twice, a string and a dict spec of one class) is a ValueError. -/
+theorem C17_duplicate_names_rejected (names : List String) :
+    (names.Nodup → buildNdict [] names = .ok names) ∧ (¬ names.Nodup → buildNdict [] names = .error .value) :=
+  ⟨fun h => by simpa using buildNdict_ok names [] (by simpa using h),
+   fun h => buildNdict_dup names [] (by simp) (by simpa using h)⟩
+
+/-! ### nesting to ANY depth (Pars inside ndict inside Pars …) -/
+
+/-- **Applied, all depths.** For every nesting depth `n`, every stored value, every supplied value (dict keys
+    distinct at every level, no dict naming an unknown distribution parameter in the as-is variant) and either mode:
+    if the update returns, every supplied leaf value is in effect at its path. -/
+theorem C17_deep_applied (n : Nat) (var : Variant) (create : Bool) (old old' : PT n) (new : NT n)
+    (hwf : wfN n var new) (h : applyN n var create old new = .ok old') : inEffectN n old' new :=
+  deep_applied n var create old new old' hwf h
+
+/-- **Unknown names rejected, all depths.** In strict mode, if the nested update returns then every name the supplied
+    value mentions, at every depth, exists in the stored value — i.e. an unknown name at ANY depth makes it raise. -/
+theorem C17_deep_unknown_rejected (n : Nat) (var : Variant) (old old' : PT n) (new : NT n)
+    (hnd : nodupN n new) (h : applyN n var false old new = .ok old') : knownN n old new :=
+  deep_known n var old new old' hnd h
+
+/-- the same for a whole parameter set of depth-`n` entries -/
+theorem C17_deep_update_applied (n : Nat) (var : Variant) (create : Bool) (p p' : List (String × PT n))
+    (items : List (String × NT n)) (hnd : (keysOf items).Nodup) (hwf : ∀ it ∈ items, wfN n var it.2)
+    (h : updateN n var create p items = .ok p') :
+    ∀ it ∈ items, ∃ c, lookup it.1 p' = some c ∧ inEffectN n c it.2 := by
+  unfold updateN updateGen at h
+  cases hs : strictCheck create (keysOf p) (keysOf items) with
+  | error e => simp [hs] at h
+  | ok u =>
+      simp only [hs] at h
+      obtain ⟨h1, h2, _⟩ := setAll_spec _ _ _ items p p' hnd h
+      intro it hit
+      cases hl : lookup it.1 p with
+      | none => exact ⟨_, h2 it hit hl, storeNew_inEffect n it.2⟩
+      | some o =>
+          obtain ⟨o', hap, hl'⟩ := h1 it hit o hl
+          exact ⟨o', hl', deep_applied n var create o it.2 o' (hwf it hit) hap⟩
+
+theorem C17_deep_update_unknown_rejected (n : Nat) (var : Variant) (p : List (String × PT n))
+    (items : List (String × NT n)) (h : ∃ k ∈ keysOf items, k ∉ keysOf p) :
+    updateN n var false p items = .error .keyNotFound := by
+  simp [updateN, updateGen, strictCheck_unknown (keysOf p) (keysOf items) h]
+
+/-- Non-vacuity, depth 3: sim-level pars ⊃ module container ⊃ module pars ⊃ a distribution parameter. -/
+def exDeep : List (String × PT 3) :=
+  [("n_agents", .inl ⟨.num, .isNew 0⟩),
+   ("diseases", .inr (.mods, [("sir", .inr (.pars, [("dur_inf", .inl ⟨.dist false .dur, .isNew 1⟩),
+                                                     ("init_prev", .inl ⟨.dist true .plain, .isNew 2⟩)]))]))]
+
+def exDeepNew (key : String) (k : NKind) : List (String × NT 3) :=
+  [("diseases", .inr (.dictNoType, 50, [("sir", .inr (.dictNoType, 51, [(key, .inl (k, 52))]))]))]
+
+def isErr {α} (r : Except Err α) (e : Err) : Bool :=
+  match r with
+  | .error e' => e' == e
+  | .ok _ => false
+
+def isOk {α} (r : Except Err α) : Bool :=
+  match r with
+  | .error _ => false
+  | .ok _ => true
+
+example : isOk (updateN 3 .asis false exDeep (exDeepNew "dur_inf" .number)) = true ∧
+    isErr (updateN 3 .asis false exDeep (exDeepNew "zz_unknown" .number)) .keyNotFound = true ∧
+    isErr (updateN 3 .asis true exDeep (exDeepNew "zz_unknown" .number)) .keyNotFound = true ∧
+    isErr (updateN 3 .asis false exDeep (exDeepNew "dur_inf" .str)) .type = true ∧
+    isErr (updateN 3 .asis false exDeep (exDeepNew "init_prev" (.dist false))) .type = true ∧
+    isErr (updateN 3 .asis false exDeep [("diseases", .inr (.dictNoType, 50, [("zz", .inl (.nil, 51))]))]) .keyNotFound = true := by
+  decide +kernel
+
+example : buildNdict [] ["sir", "sis", "sir"] = .error .value ∧ buildNdict [] ["sir", "sis"] = .ok ["sir", "sis"] := by decide
+
+example : updateParsKw .asis exMod [("dur_inf", .number, 10)] [("dur_inf", .number, 11), ("dt", .number, 12)] =
+    .ok ⟨[("init_prev", ⟨.dist true .plain, .isNew 0⟩), ("dur_inf", ⟨.dist false .plain, .oldFirst 11⟩),
+          ("waning", ⟨.timepar false, .isNew 2⟩), ("log", ⟨.num, .isNew 3⟩)], [], [("dt", 12)]⟩ := by decide
 
 end StarsimModel.C17
